@@ -29,6 +29,7 @@ ASSUMPTIONS = ["sympy .expand()/.as_ordered_factors()/.as_base_exp() decompose a
 US = "unyt/unit_systems.py"
 UO = "unyt/unit_object.py"
 ARR = "unyt/array.py"
+REG = "unyt/unit_registry.py"
 
 SLOTS = [
     ("length_unit", "length"),
@@ -170,6 +171,113 @@ def constructor(repo, res, init):
     res.check(ok, "dimension-tests", init.where(), "with a registry the unit's table dimension, without one the default table's dimension (after prefix and alias resolution) is compared with the slot's dimension", rid=r2)
 
 
+def base_equivalent_in_own_registry(repo):
+    """every value returned by Unit.get_base_equivalent is a Unit(...) call whose registry argument is self.registry"""
+    from rules.common import bind_call
+
+    uo = repo.mod(UO)
+    fn = uo.func("Unit.get_base_equivalent")
+    new = uo.func("Unit.__new__")
+    rets = [n for n in walk_no_nested(fn.node) if isinstance(n, ast.Return)]
+    if not rets:
+        raise AnalysisError(f"{fn.where()}: no return statement")
+    bad = []
+    for r in rets:
+        v = r.value
+        ok = isinstance(v, ast.Call) and norm(v.func) == "Unit"
+        if ok:
+            b = bind_call(v, new, skip_self=True)
+            ok = b.get("registry") is not None and norm(b["registry"]) == "self.registry"
+        elif v is not None and norm(v) in ("self", "self.copy()"):
+            ok = True  # the unit itself / its copy (Unit.copy keeps the registry: C11-R4)
+        if not ok:
+            bad.append(norm(r)[:80])
+    return not bad, bad
+
+
+def class_instance_attrs(mod, cls):
+    """names an instance of `cls` answers to, from the source: everything defined in the class body (methods,
+    properties, class attributes) plus every attribute stored on self / obj / ret inside its methods"""
+    cd = [n for n in mod.tree.body if isinstance(n, ast.ClassDef) and n.name == cls]
+    if len(cd) != 1:
+        raise AnalysisError(f"{mod.rel}: class {cls} not found")
+    out = set()
+    for st in cd[0].body:
+        if isinstance(st, (ast.FunctionDef, ast.ClassDef)):
+            out.add(st.name)
+            for n in ast.walk(st):
+                if isinstance(n, ast.Attribute) and isinstance(n.ctx, ast.Store) and isinstance(n.value, ast.Name) and n.value.id in ("self", "obj", "ret"):
+                    out.add(n.attr)
+        elif isinstance(st, ast.Assign):
+            out |= {t.id for t in st.targets if isinstance(t, ast.Name)}
+        elif isinstance(st, ast.AnnAssign) and isinstance(st.target, ast.Name):
+            out.add(st.target.id)
+    return out
+
+
+def default_system_resolution(repo, res, rid):
+    """_sanitize_unit_system(None, obj): what the `unit_system is None` branch binds, decided for each kind of object
+    the library passes as obj (found from the call sites: an array, a Unit, None).  The objects are closed abstract
+    records holding exactly the attributes their class defines in the source, so a read of an attribute the class
+    does not have raises AttributeError abstractly and a getattr default is taken - as at run time."""
+    from engine.dtable import Folder, Rec, Tok, _Raised
+
+    reg = repo.mod(REG)
+    fn = reg.func("_sanitize_unit_system")
+    res.fn(fn)
+    p_sys, p_obj = fn.params[:2]
+    branch = [st for st in fn.body if isinstance(st, ast.If) and norm(st.test) in (f"{p_sys} is None", f"None is {p_sys}") and not st.orelse]
+    if len(branch) != 1:
+        raise AnalysisError(f"{fn.where()}: `if {p_sys} is None:` branch not found")
+    # kinds of obj, from the call sites
+    kinds = set()
+    for mod in repo.mods(only_anchor=False):
+        for q, fns in mod.funcs.items():
+            for f in fns:
+                for c in walk_no_nested(f.node):
+                    if isinstance(c, ast.Call) and norm(c.func).split(".")[-1] == fn.name and len(c.args) >= 2:
+                        a = c.args[1]
+                        if isinstance(a, ast.Constant) and a.value is None:
+                            kinds.add("None")
+                        elif isinstance(a, ast.Name) and a.id == "self" and "." in q:
+                            kinds.add(q.split(".")[0])
+                        else:
+                            raise AnalysisError(f"{f.where(c)}: cannot tell what kind of object is passed as obj: {norm(a)}")
+    if not {"unyt_array", "Unit"} <= kinds:
+        raise AnalysisError(f"{fn.where()}: call sites passing an array and a Unit not found ({sorted(kinds)})")
+    arr_attrs = class_instance_attrs(repo.mod(ARR), "unyt_array")
+    unit_attrs = class_instance_attrs(repo.mod(UO), "Unit")
+    reg_attrs = class_instance_attrs(reg, "UnitRegistry")
+    OWN, DEFAULT = Tok("the-registry's-unit-system"), Tok("mks-default")
+    if "unit_system" not in reg_attrs or "registry" not in unit_attrs or "units" not in unit_attrs or "units" not in arr_attrs:
+        raise AnalysisError(f"{fn.where()}: attribute inventory lacks units/registry/unit_system")
+    def closed(label, names):
+        r = Rec(label)
+        r.attrs = {k: Tok(k) for k in names}
+        r.attrs["__closed__"] = True
+        return r
+
+    registry = closed("registry", reg_attrs)
+    registry.attrs["unit_system"] = OWN
+    unit = closed("unit", unit_attrs)
+    unit.attrs["registry"] = registry
+    unit.attrs["units"] = unit
+    array = closed("array", arr_attrs)
+    array.attrs["units"] = unit
+    objs = {"unyt_array": (array, OWN), "Unit": (unit, OWN), "None": (None, DEFAULT)}
+    for k in sorted(kinds):
+        if k not in objs:
+            raise AnalysisError(f"{fn.where()}: obj of class {k} is not modelled")
+        o, want = objs[k]
+        f = Folder(reg, fn, {p_sys: None, p_obj: o}, {"mks_unit_system": DEFAULT})
+        try:
+            r = f.run(branch[0].body)
+        except _Raised as ex:
+            r = ex.outcome
+        got = f.env.get(p_sys) if r is None else r
+        res.check(got is want, f"default-system:{k}", fn.where(branch[0]), f"with unit_system=None and obj {'= None' if k == 'None' else 'a ' + k}, the system used must be {want}: the branch yields {got} (an attribute the class does not define is read, or a fallback hides it) - e.g. in_base() of an array in a cgs registry converts to mks", str(want), str(got), rid=rid)
+
+
 def error_discipline(repo, res):
     r3 = res.rule("C10-R3", "irreducibility is reported as UnitsNotReducible; missing current as MissingMKSCurrent", floor=5)
     uo = repo.mod(UO)
@@ -185,8 +293,9 @@ def error_discipline(repo, res):
         tr = [t for t in ast.walk(fn.node) if isinstance(t, ast.Try) and any(x is s for x in ast.walk(ast.Module(body=t.body, type_ignores=[])))]
         ok &= len(tr) == 1 and any(norm(h.type) == "MissingMKSCurrent" and is_raise_of(h.body[-1], "UnitsNotReducible") for h in tr[0].handlers)
     res.check(ok and len(sub) == 1, "get_base_equivalent", fn.where(), "MKS/CGS conversion errors and a missing current unit surface as UnitsNotReducible", rid=r3)
-    rets = [n for n in fn.body if isinstance(n, ast.Return)]
-    res.check(len(rets) == 1 and norm(rets[0].value) == "Unit(new_units, registry=self.registry)", "get_base_equivalent:result", fn.where(), "the base-equivalent unit is built in the unit's own registry", rid=r3)
+    ok_reg, found_reg = base_equivalent_in_own_registry(repo)
+    res.check(ok_reg, "get_base_equivalent:result", fn.where(), "the base-equivalent unit is built in the unit's own registry (a unit system's own units live in the default registry: their scales are not the caller's after a registry edit)", "every return is Unit(..., registry=self.registry)", found_reg, rid=r3)
+    default_system_resolution(repo, res, r3)
     sanit = [norm(n.value) for n in walk_no_nested(fn.node) if isinstance(n, ast.Assign) and norm(n.targets[0]) == "unit_system"]
     res.check(sanit == ["_sanitize_unit_system(unit_system, self)"], "get_base_equivalent:system", fn.where(), "the unit system argument (name, object, None, 'code') is resolved by _sanitize_unit_system", found=sanit, rid=r3)
     ib = repo.mod(ARR).func("unyt_array.in_base")
@@ -255,4 +364,6 @@ MUTANTS = [
     Mutant("missing-current-escapes", UO, "Unit.get_base_equivalent", "            except MissingMKSCurrent:\n                raise UnitsNotReducible(self.units, unit_system)", "            except MissingMKSCurrent:\n                raise", ("C10-R3",)),
     Mutant("synthesis-drops-exponent", US, "_get_system_unit_string", 'power_string = f"**({factor.as_base_exp()[1]})"', 'power_string = ""', ("C10-R4",)),
     Mutant("memo-differs", US, "UnitSystem.__getitem__", "            self.units_map[key] = parse_unyt_expr(units)", "            self.units_map[key] = parse_unyt_expr(str(key))", ("C10-R4",)),
+    Mutant("default-system-from-missing-attribute", REG, "_sanitize_unit_system", "        try:\n            unit_system = obj.units.registry.unit_system\n        except AttributeError:\n            unit_system = mks_unit_system", "        registry = getattr(obj, \"registry\", None)\n        unit_system = getattr(registry, \"unit_system\", mks_unit_system)", ("C10-R3",)),
+    Mutant("default-system-getattr-chain", REG, "_sanitize_unit_system", "        try:\n            unit_system = obj.units.registry.unit_system\n        except AttributeError:\n            unit_system = mks_unit_system", "        units = getattr(obj, \"units\", None)\n        registry = getattr(units, \"registry\", None)\n        unit_system = getattr(registry, \"unit_system\", mks_unit_system)", (), benign=True),
 ]
